@@ -426,6 +426,7 @@ class ItemSpec:
         self.path = path
         self.opts = opts
         self.lineno = lineno
+        self.binds = []
         self.sections = {}   # 'pre'|'spec'|'entry'|'exit'|('loop',n)|('closure',n) -> text
         self.rws = []        # (tag, count, orig, new)
         self.slice = None
@@ -567,6 +568,34 @@ def auto_r2(sf, ed, lo, hi, arms=()):
                     continue
                 n += 1
                 ed.rw(s0, e0, '_vx_unit%d: ()' % n, 'R2')
+
+
+def apply_binds(spec):
+    """`//@ bind NAME <<anchor tokens>>`: NAME stands for the identifier that follows the anchor in the real function
+    (e.g. the variable passed to `poll.poll(`); `$NAME` in the overlay text of this item is replaced by it, so that a
+    hint or invariant can talk about "the variable that is passed there" whatever it is called. Not an identifier, or
+    different identifiers at several sites: anchor lost."""
+    if not spec.binds:
+        return
+    sf, chain = locate(spec.path)
+    it = chain[-1]
+    st = sf.st
+    lo = (it.body_open + 1) if it.body_open is not None else it.first
+    for name, anchor in spec.binds:
+        texts = plain_texts(anchor)
+        sites = find_token_seq(sf, lo, it.last, texts)
+        idents = set()
+        for k in sites:
+            t = st[k + len(texts)].text
+            if not IDENT_ONLY.match(t):
+                raise ExtractError('%s: bind %s: `%s` is followed by `%s`, not by an identifier (anchor lost)' % (spec.path, name, anchor, t))
+            idents.add(t)
+        if len(idents) != 1:
+            raise ExtractError('%s: bind %s: anchor `%s` matches %d sites with %d different identifiers (anchor lost)' % (spec.path, name, anchor, len(sites), len(idents)))
+        ident = idents.pop()
+        for key in list(spec.sections):
+            spec.sections[key] = spec.sections[key].replace('$' + name, ident)
+    spec.binds = []
 
 
 def emit_item(spec, log, vacuity=False):
@@ -1021,6 +1050,12 @@ def expand_fragment(frag_name, text, out_lines, regions, log, vacuity=False):
                         if not mc:
                             raise ExtractError('%s: bad %s directive (%s)' % (frag_name, w[0], d2))
                         cur_sec = (mc.group(1), mc.group(2))
+                    elif w[0] == 'bind':
+                        flush()
+                        mb = re.match(r'^bind\s+([A-Z][A-Z0-9_]*)\s+<<(.*)>>\s*$', d2)
+                        if not mb:
+                            raise ExtractError('%s: bad bind directive: %s' % (frag_name, d2))
+                        spec.binds.append((mb.group(1), mb.group(2)))
                     elif w[0] == 'rw':
                         flush()
                         mr = RW_RE.match(d2)
@@ -1047,6 +1082,7 @@ def expand_fragment(frag_name, text, out_lines, regions, log, vacuity=False):
             try:
                 if name in FORCE_DEGRADE and 'sigonly' not in opts:
                     raise ExtractError('the verifier rejects this item as it stands: %s' % FORCE_DEGRADE[name])
+                apply_binds(spec)
                 if is_slice:
                     emit(emit_slice(spec, log, vacuity))
                 else:
